@@ -247,6 +247,51 @@ theorem concrete_exact_fixed_extrap_setup (E : Cache.Env K) (grids : List (Cache
   · rw [hnr0, hnt0]; exact hsol
   · rw [hnr1, hnt1, hnt0]; exact hsol1
 
+/-- **end to end, translation invariance**: inputs → hierarchy → the error propagation of the plain concrete cycle does not depend
+    on the solution; only the FINEST grid's input functions have to be admissible (`C10i.InputsOK` on level 0) -/
+theorem concrete_cycle_translate_setup (E : Cache.Env K) (grids : List (Cache.GridData K)) (cc cg : Bool) (tiny : K → Bool)
+    (nr nt : Nat) (maxLevels : Int) (L : Nat) (crit : Nat → Nat → Bool)
+    (hsel : chooseLevels nr nt maxLevels = .ok L) (hlen : grids.length = L)
+    (hchain : List.IsChain C03c.Nested grids)
+    (hshape : ∀ l (hl : l < grids.length), (grids[l]).g.nr = coarsenR l nr ∧ (grids[l]).g.nt = coarsenT l nt ∧
+      (grids[l]).g.nc = Split.autoNc (crit l) (coarsenR l nr))
+    (hin0 : ∀ G, grids[0]? = some G → C10i.InputsOK E G)
+    (k : Kind) (nu1 nu2 : Nat) (fgs : Bool) (u f w g : Array K) (ht1 : tiny 1 = false)
+    (M : SparseLU.CSR K)
+    (hM : DirectCode.assemble C04c.genTables (lvl (Build.hier E grids true cc cg tiny C04c.genTables) (L - 1)).op = some M)
+    (ht : ∀ r, r < M.rows → tiny (SparseLU.den ((SparseLU.factorRows M).2.getD r []) r) = false)
+    (hu : u.size = (lvl (Build.hier E grids true cc cg tiny C04c.genTables) 0).op.nr *
+      (lvl (Build.hier E grids true cc cg tiny C04c.genTables) 0).op.nt)
+    (hf : (lvl (Build.hier E grids true cc cg tiny C04c.genTables) 0).op.nr *
+      (lvl (Build.hier E grids true cc cg tiny C04c.genTables) 0).op.nt ≤ f.size)
+    (hAw : ∀ i j, i < (lvl (Build.hier E grids true cc cg tiny C04c.genTables) 0).op.nr →
+      j < (lvl (Build.hier E grids true cc cg tiny C04c.genTables) 0).op.nt →
+      take (lvl (Build.hier E grids true cc cg tiny C04c.genTables) 0).op
+        (SmootherCode.fld (lvl (Build.hier E grids true cc cg tiny C04c.genTables) 0).op.nt g)
+        (SmootherCode.fld (lvl (Build.hier E grids true cc cg tiny C04c.genTables) 0).op.nt w) i j = 0)
+    (m m' : Mem (Option (Array K)))
+    (hm : m (0, Buf.sol) = some u) (hr : m (0, Buf.rhs) = some f)
+    (hm' : m' (0, Buf.sol) = some (Array.ofFn (n := u.size) fun p => u[p] + w.getD p.val 0))
+    (hr' : m' (0, Buf.rhs) = some (Array.ofFn (n := f.size) fun p => f[p] + g.getD p.val 0)) :
+    ∃ y, y.size = (lvl (Build.hier E grids true cc cg tiny C04c.genTables) 0).op.nr *
+        (lvl (Build.hier E grids true cc cg tiny C04c.genTables) 0).op.nt ∧
+      cycle (Build.hier E grids true cc cg tiny C04c.genTables) ⟨L, nu1, nu2⟩ k false fgs m (0, Buf.sol) = some y ∧
+      cycle (Build.hier E grids true cc cg tiny C04c.genTables) ⟨L, nu1, nu2⟩ k false fgs m' (0, Buf.sol) =
+        some (Array.ofFn (n := y.size) fun p => y[p] + w.getD p.val 0) := by
+  obtain ⟨hb, hbc⟩ := setup_built E grids cc cg tiny nr nt maxLevels L crit hsel hlen hchain hshape
+  have hL2 : 2 ≤ L := (chain_sizes hsel).1
+  have hell : Elliptic (lvl (Build.hier E grids true cc cg tiny C04c.genTables) 0).op := by
+    obtain ⟨G0, Gs, rfl⟩ : ∃ G0 Gs, grids = G0 :: Gs := by
+      cases grids with
+      | nil => simp only [List.length_nil] at hlen; omega
+      | cons a b => exact ⟨a, b, rfl⟩
+    have hlev := C10i.hier_eq_fresh_levels E cc cg true G0 Gs hchain tiny C04c.genTables
+    have h0 := Concrete15.lvl_map _ (G0 :: Gs) _ hlev 0 (by simp)
+    rw [h0]
+    exact C10i.opOf_elliptic E _ (hin0 G0 rfl) true cc cg
+  exact concrete_cycle_translate_built _ nr nt maxLevels L crit hsel hb (fun l hl => hbc l (by omega)) hell k nu1 nu2 fgs u f w g
+    ht1 M hM ht hu hf hAw m m' hm hr hm' hr'
+
 end Ordered
 
 /-! ## non-vacuity: the four-level hierarchy `C10h.exH` (33 × 64 → 17 × 32 → 9 × 16 → 5 × 8) built by the chain -/
